@@ -10,87 +10,26 @@ use smoltcp::socket::{dhcpv4, dns, icmp, raw, tcp, udp};
 use smoltcp::time::Duration;
 use smoltcp::wire::{DnsQueryType, IpAddress, IpCidr, IpEndpoint, IpListenEndpoint, IpProtocol, IpVersion, SixlowpanAddressContext};
 use std::collections::VecDeque;
-use std::sync::atomic::{AtomicU64, Ordering};
-use std::sync::{Arc, Mutex, Once};
 use vkit::indep::*;
 use vkit::runner::{guarded, panic_in_smoltcp, panic_key, Fail};
 use vkit::sim::{ms, Hw, Node};
 use vkit::{Ctx, Src};
 
-pub const HANG_SECS: u64 = 10;
+/// CPU time one Interface::poll may consume before it counts as not returning (a legitimate
+/// poll handles at most 50 000 frames and needs well under 0.5 s)
+pub const HANG_CPU_MS: u64 = 10_000;
 pub const HARD_CAP: usize = 50_000;
 
-// ------------------------------------------------------------------ watchdog (pattern of c19.rs)
-
-struct Slot {
-    since: AtomicU64,
-    tape: Mutex<Vec<u64>>,
-    part: Mutex<&'static str>,
-}
-
-static SLOTS: Mutex<Vec<Arc<Slot>>> = Mutex::new(Vec::new());
-static WATCHDOG: Once = Once::new();
-
-fn epoch() -> std::time::Instant {
-    static EPOCH: std::sync::OnceLock<std::time::Instant> = std::sync::OnceLock::new();
-    *EPOCH.get_or_init(std::time::Instant::now)
-}
-
-thread_local! {
-    static MY_SLOT: Arc<Slot> = {
-        let s = Arc::new(Slot { since: AtomicU64::new(0), tape: Mutex::new(Vec::new()), part: Mutex::new("") });
-        SLOTS.lock().unwrap().push(s.clone());
-        s
-    };
-}
-
-fn watchdog_main() {
-    loop {
-        std::thread::sleep(std::time::Duration::from_millis(250));
-        let now = epoch().elapsed().as_millis() as u64;
-        let slots: Vec<Arc<Slot>> = SLOTS.lock().unwrap().clone();
-        for s in slots {
-            let since = s.since.load(Ordering::SeqCst);
-            if since != 0 && now > since + HANG_SECS * 1000 {
-                let tape = s.tape.lock().unwrap().clone();
-                let part = *s.part.lock().unwrap();
-                let mut d = vkit::Digest::new();
-                d.str("hang");
-                for v in &tape {
-                    d.u64(*v);
-                }
-                let path = format!("{}/replays/new/C03-{:016x}.tape", vkit::runner::out_root(), d.finish());
-                let f = Fail::new("hang:Interface::poll", format!("a single Interface::poll did not return within {} s of wall-clock time (tape = the draws made before that call; replaying it hangs again)", HANG_SECS));
-                vkit::runner::write_replay(&path, "C03", part, &tape, &f, &[]);
-                println!("failure key={} part={} : {}", f.key, part, f.msg);
-                println!("VIOLATION property=C03 replay={}", path);
-                std::process::exit(1);
-            }
-        }
-    }
-}
+// ------------------------------------------------------------------ watchdog
+//
+// vkit::hang: the verdict is the CPU time one poll consumes without returning, never the
+// wall-clock time (see the module header there).
 
 fn arm(src: &Src, part: &'static str) {
-    WATCHDOG.call_once(|| {
-        let _ = epoch();
-        std::thread::spawn(watchdog_main);
-    });
-    MY_SLOT.with(|s| {
-        {
-            let mut t = s.tape.lock().unwrap();
-            t.clear();
-            t.extend(src.tape.iter().map(|v| v.0));
-        }
-        *s.part.lock().unwrap() = part;
-        s.since.store(epoch().elapsed().as_millis() as u64 + 1, Ordering::SeqCst);
-    });
+    vkit::hang::arm(src, "C03", part, "Interface::poll", "hang:Interface::poll", HANG_CPU_MS);
 }
-
 fn disarm() -> u64 {
-    MY_SLOT.with(|s| {
-        let since = s.since.swap(0, Ordering::SeqCst);
-        (epoch().elapsed().as_millis() as u64 + 1).saturating_sub(since)
-    })
+    vkit::hang::disarm()
 }
 
 // ------------------------------------------------------------------ world
@@ -418,8 +357,10 @@ impl World {
         let node = &mut self.node;
         let r = guarded(|| node.poll(now, budget));
         let took = disarm();
-        if took > HANG_SECS * 1000 {
-            return Err(Fail::new("hang:Interface::poll", format!("a single Interface::poll took {} ms of wall-clock time", took)));
+        if took > 2_000 {
+            // it returned: slowness by the wall clock says nothing about smoltcp
+            ctx.label("slow-poll-wall-clock");
+            ctx.inconclusive = true;
         }
         let frames = match r {
             Ok(f) => f,
